@@ -1,3 +1,3 @@
 #!/bin/sh
 # usage: tools/vc.sh <function key>...   -- prints every obligation that is not discharged, and any error
-cd /verif && bin/gvc vc "$@" 2>&1 | grep -v "^[a-z.]* *unsat  " | grep -v "^  inlined:\|^  trusted:\|^  havocked:\|^canary" | cut -c1-${W:-180}
+cd /verif && ${GVC:-bin/gvc} vc "$@" 2>&1 | grep -v "^[a-z.]* *unsat  " | grep -v "^  inlined:\|^  trusted:\|^  havocked:\|^canary" | cut -c1-${W:-180}
